@@ -365,9 +365,18 @@ func NewMem() *Mem {
 	return &Mem{Files: map[string]*MemFile{"/": {Info: webdav.FileInfo{Path: "/", IsDir: true}}}}
 }
 
+// key normalises a path: no trailing slash except for the root
+func key(p string) string {
+	if p == "/" || p == "" {
+		return "/"
+	}
+	return strings.TrimSuffix(p, "/")
+}
+
 func (m *Mem) Put(fi webdav.FileInfo, data []byte) {
 	m.mu.Lock()
 	defer m.mu.Unlock()
+	fi.Path = key(fi.Path)
 	fi.Size = int64(len(data))
 	if fi.IsDir {
 		fi.Size = 0
@@ -379,7 +388,7 @@ func (m *Mem) Open(ctx context.Context, name string) (io.ReadCloser, error) {
 	m.add("Open", name, nil)
 	m.mu.Lock()
 	defer m.mu.Unlock()
-	f, ok := m.Files[name]
+	f, ok := m.Files[key(name)]
 	if !ok {
 		return nil, notFound("file")
 	}
@@ -389,12 +398,8 @@ func (m *Mem) Stat(ctx context.Context, name string) (*webdav.FileInfo, error) {
 	m.add("Stat", name, nil)
 	m.mu.Lock()
 	defer m.mu.Unlock()
-	f, ok := m.Files[name]
+	f, ok := m.Files[key(name)]
 	if !ok {
-		if f2, ok2 := m.Files[strings.TrimSuffix(name, "/")]; ok2 && name != "/" {
-			fi := f2.Info
-			return &fi, nil
-		}
 		return nil, notFound("file")
 	}
 	fi := f.Info
@@ -404,23 +409,29 @@ func (m *Mem) ReadDir(ctx context.Context, name string, recursive bool) ([]webda
 	m.add("ReadDir", name, map[string]interface{}{"recursive": recursive})
 	m.mu.Lock()
 	defer m.mu.Unlock()
-	base := strings.TrimSuffix(name, "/")
+	base := key(name)
+	if _, ok := m.Files[base]; !ok {
+		return nil, notFound("directory")
+	}
 	var keys []string
 	for k := range m.Files {
 		keys = append(keys, k)
 	}
 	sort.Strings(keys)
 	var out []webdav.FileInfo
+	pre := base + "/"
+	if base == "/" {
+		pre = "/"
+	}
 	for _, k := range keys {
-		kk := strings.TrimSuffix(k, "/")
-		if kk == base || k == name {
+		if k == base {
 			out = append(out, m.Files[k].Info)
 			continue
 		}
-		if !strings.HasPrefix(kk, base+"/") {
+		if !strings.HasPrefix(k, pre) {
 			continue
 		}
-		rest := strings.TrimPrefix(kk, base+"/")
+		rest := strings.TrimPrefix(k, pre)
 		if !recursive && strings.Contains(rest, "/") {
 			continue
 		}
@@ -436,25 +447,25 @@ func (m *Mem) Create(ctx context.Context, name string, body io.ReadCloser, opts 
 	}
 	m.mu.Lock()
 	defer m.mu.Unlock()
-	old, existed := m.Files[name]
-	fi := webdav.FileInfo{Path: name, Size: int64(len(data)), ETag: "created-etag", ModTime: time.Unix(1700000001, 0)}
+	old, existed := m.Files[key(name)]
+	fi := webdav.FileInfo{Path: key(name), Size: int64(len(data)), ETag: "created-etag", ModTime: time.Unix(1700000001, 0)}
 	if existed {
 		fi.ETag = old.Info.ETag
 		fi.MIMEType = old.Info.MIMEType
 	}
-	m.Files[name] = &MemFile{Info: fi, Data: data}
+	m.Files[key(name)] = &MemFile{Info: fi, Data: data}
 	return &fi, !existed, nil
 }
 func (m *Mem) RemoveAll(ctx context.Context, name string, opts *webdav.RemoveAllOptions) error {
 	m.add("RemoveAll", name, map[string]interface{}{"ifm": string(opts.IfMatch), "ifnm": string(opts.IfNoneMatch)})
 	m.mu.Lock()
 	defer m.mu.Unlock()
-	if _, ok := m.Files[name]; !ok {
+	base := key(name)
+	if _, ok := m.Files[base]; !ok {
 		return notFound("file")
 	}
-	base := strings.TrimSuffix(name, "/")
 	for k := range m.Files {
-		if k == name || strings.HasPrefix(k, base+"/") {
+		if k == base || strings.HasPrefix(k, base+"/") {
 			delete(m.Files, k)
 		}
 	}
@@ -464,7 +475,7 @@ func (m *Mem) Mkdir(ctx context.Context, name string) error {
 	m.add("Mkdir", name, nil)
 	m.mu.Lock()
 	defer m.mu.Unlock()
-	m.Files[name] = &MemFile{Info: webdav.FileInfo{Path: name, IsDir: true}}
+	m.Files[key(name)] = &MemFile{Info: webdav.FileInfo{Path: key(name), IsDir: true}}
 	return nil
 }
 func (m *Mem) Copy(ctx context.Context, name, dest string, options *webdav.CopyOptions) (bool, error) {
